@@ -263,7 +263,7 @@ func TestC14NFS41LocksReleased(t *testing.T) {
 		return l["fault_fired"] > 0 && n >= 4
 	}
 	rec := simkit.NewRecorder(t, "C14", "nfs41_locks_released", commonRule+
-		"Generator of nfs41_state_accounting (incl. OPEN with every claim type and share_deny, RENAME, LINK) with one-shot injected failures of VirtualOpenChild, VirtualOpenSelf, file allocation, VirtualRead, VirtualWrite, VirtualSetAttributes in 30% of the requests that can reach them and 30% state-ID deviations, so that the error returns of the operations are reached (labelled error_return:<operation>:<status>). ORACLE after every request, at quiescence (every request of the case has returned or is parked inside the leaf / before or after VirtualOpenChild, i.e. outside of all locks of the program): VerifStateCounts can take nfs41Program.clientsLock and the lock of every client incarnation without a request in flight, VerifClientLocksFree can take the lock of every client incarnation including those with requests in flight (the harness parks requests only inside leaf I/O and around VirtualOpenChild, which the program calls without a client incarnation lock), VerifOpenedCount/VerifUseCount can take OpenedFilesPool.lock and every OpenedFile.locksLock, VerifNFSHandlePoolLockIsFree holds (all TryLock probes); every request that is not parked has returned (a request that blocks on a leaked mutex makes the case hang, which a real-time watchdog outside the bubble reports as VERIF-VIOLATION after 45 s); all oracles of nfs41_state_accounting stay armed. "+
+		"Generator of nfs41_state_accounting (incl. OPEN with every claim type and share_deny, RENAME, LINK) with one-shot injected failures of VirtualOpenChild, VirtualOpenSelf, file allocation, VirtualRead, VirtualWrite, VirtualSetAttributes in 30% of the requests that can reach them and 30% state-ID deviations, so that the error returns of the operations are reached (labelled error_return:<operation>:<status>). ORACLE after every request, at quiescence (every request of the case has returned or is parked inside the leaf / before or after VirtualOpenChild, i.e. outside of all locks of the program): VerifStateCounts can take nfs41Program.clientsLock and the lock of every client incarnation without a request in flight, VerifClientLocksFree can take the lock of every client incarnation including those with requests in flight (the harness parks requests only inside leaf I/O and around VirtualOpenChild, which the program calls without a client incarnation lock), VerifOpenedCount/VerifUseCount can take OpenedFilesPool.lock and every OpenedFile.locksLock, VerifNFSHandlePoolLockIsFree holds (all TryLock probes); every request that is not parked has returned (a request that blocks on a leaked mutex makes the case hang, which a stall watchdog outside the bubble reports as VERIF-VIOLATION when no step of the case completed during 90 consecutive on-time one-second ticks of the real clock, i.e. while this process demonstrably had the CPU; time during which the process was starved does not count); all oracles of nfs41_state_accounting stay armed. "+
 		"NON-TRIVIAL: an injected fault fired and error returns of at least four distinct (operation, status) kinds were reached. Distinct by script hash")
 	runProperty(t, p, rec)
 }
